@@ -16,7 +16,9 @@ R14.5  the eight PsbtExt finalize entry points pass the malleability switch thei
 R14.7  the updater records, per descriptor type, exactly the BIP-174 redeem / witness script and nothing on a
        scriptPubKey mismatch
 R14.6  get_descriptor infers a descriptor exactly when redeem / witness scripts and signing keys commit to the spent
-       output (decision table against BIP-174 / 16 / 141 consistency)"""
+       output (decision table against BIP-174 / 16 / 141 consistency)
+R14.8  sighash_msg asks the sighash cache for the digest the spent output type prescribes (BIP-341 / BIP-143 / legacy),
+       with the right script code, input index, amount and sighash type; error cases"""
 
 import itertools
 import os
@@ -736,6 +738,185 @@ def check_get_descriptor(chk, F):
     chk.floor(R, "combinations", n, 1000)
 
 
+# ---- R14.8 sighash_msg: which digest, over which script code, amount and input ------------------------------------
+
+def check_sighash_msg(chk, F):
+    from . import c13
+    from ..builtins import deref
+    X = c13.X
+    PyScript, h160, sha = c13.PyScript, c13.h160, c13.sha
+    R = "R14.8"
+    chk.rule(R, "PsbtExt::sighash_msg asks the sighash cache for the digest that the spent output type prescribes "
+                "(BIP-341 key / script spend for p2tr, BIP-143 with the p2wpkh or witness script for segwit v0 incl. "
+                "p2sh-nested, legacy over the redeem script or the scriptPubKey otherwise), for input idx, with that "
+                "input's amount, all prevouts and the PSBT's sighash type (default ALL / DEFAULT); errors for an index "
+                "out of range, missing utxos, missing scripts and unusable sighash types")
+    sm = "<bitcoin::Psbt as psbt::PsbtExt>::sighash_msg"
+    if sm not in F.fns:
+        chk.fail(R, "anchor", "PsbtExt::sighash_msg not found", kind="unanalysable")
+        return
+    chk.saw(sm)
+    KA, KB = c13.KA, c13.KB
+    SA = c13.ms_script("pk(A)", "any")
+    m = Machine(F, strict=True, max_depth=60)
+    h = m.hooks
+    for k in ("p2pk", "p2pkh", "p2wpkh", "p2wsh", "p2tr", "p2sh"):
+        h["bitcoin::Script::is_" + k] = (lambda kind: lambda m_, a, c: deref(a[0]).kind == kind)(k)
+
+    def cache_fn(name):
+        def f(m_, a, c):
+            return ok(("digest", name) + tuple(deref(x) for x in a[1:]))
+        return f
+    for nm in ("taproot_script_spend_signature_hash", "taproot_key_spend_signature_hash", "p2wpkh_signature_hash",
+               "p2wsh_signature_hash", "legacy_signature_hash"):
+        for pre in ("bitcoin::sighash::SighashCache::<R>::", "bitcoin::sighash::SighashCache::<T>::",
+                    "bitcoin::sighash::SighashCache::"):
+            h[pre + nm] = cache_fn(nm)
+    h["bitcoin::psbt::PsbtSighashType::taproot_hash_ty"] = lambda m_, a, c: deref(a[0])[1]
+    h["bitcoin::psbt::PsbtSighashType::ecdsa_hash_ty"] = lambda m_, a, c: deref(a[0])[2]
+    h["bitcoin::EcdsaSighashType::to_u32"] = lambda m_, a, c: ("u32", deref(a[0]))
+    h["bitcoin::sighash::EcdsaSighashType::to_u32"] = h["bitcoin::EcdsaSighashType::to_u32"]
+
+    def tap_ty(v):
+        return Adt("bitcoin::TapSighashType", v, {})
+
+    def ecdsa_ty(v):
+        return Adt("bitcoin::EcdsaSighashType", v, {})
+    # PSBT sighash types: (tag, taproot reading, ecdsa reading)
+    SIGTYPES = [("unset", None), ("single", ("pst", ok(tap_ty("Single")), ok(ecdsa_ty("Single")))),
+                ("taproot-only", ("pst", ok(tap_ty("Default")), err(Term("NonStandard")))),
+                ("ecdsa-only", ("pst", err(Term("InvalidTap")), ok(ecdsa_ty("AllPlusAnyoneCanPay"))))]
+    WA = PyScript("ms", SA)
+    RWPKH = PyScript("p2wpkh", h160(KA))
+    RWSH = PyScript("p2wsh", sha(SA))
+    spks = [("p2tr", PyScript("p2tr", X.Tok("key", "OUT", 32))), ("p2wpkh", PyScript("p2wpkh", h160(KA))),
+            ("p2wsh", PyScript("p2wsh", sha(SA))), ("p2sh", PyScript("p2sh", h160(SA))), ("p2pkh", PyScript("p2pkh", h160(KA))),
+            ("p2pk", PyScript("p2pk", KA)), ("bare", PyScript("ms", SA))]
+    redeems = [("-", None), ("ms", WA), ("wpkh", RWPKH), ("wsh", RWSH)]
+    wscripts = [("-", None), ("ms", WA)]
+    leafs = [("-", NONE), ("leaf", some(Term("leafhash")))]
+    OTHER = Adt("bitcoin::TxOut", "TxOut", {"script_pubkey": PyScript("p2wpkh", h160(KB)), "value": Term("amount", "other")})
+
+    def expected(spk, redeem, wscript, leaf, st, idx):
+        """the BIP-174 signer's digest for this input, or an error tag"""
+        if spk.kind == "p2tr":
+            ty = tap_ty("Default") if st is None else st[1]
+            if isinstance(ty, Adt) and ty.variant == "Err":
+                return "Err:InvalidSighashType"
+            ty = ty.fields["0"] if ty.variant == "Ok" else ty
+            if leaf.variant == "Some":
+                return ("digest", "taproot_script_spend_signature_hash", idx, "all-prevouts", leaf.fields["0"], ty)
+            return ("digest", "taproot_key_spend_signature_hash", idx, "all-prevouts", ty)
+        ty = ok(ecdsa_ty("All")) if st is None else st[2]
+        if ty.variant == "Err":
+            return "Err:InvalidSighashType"
+        ty = ty.fields["0"]
+        amt = Term("amount", "mine")
+        nested = redeem if spk.kind == "p2sh" and redeem is not None else None
+        if spk.kind == "p2wpkh":
+            return ("digest", "p2wpkh_signature_hash", idx, spk, amt, ty)
+        if nested is not None and nested.kind == "p2wpkh":
+            return ("digest", "p2wpkh_signature_hash", idx, nested, amt, ty)
+        if spk.kind == "p2wsh" or (nested is not None and nested.kind == "p2wsh"):
+            if wscript is None:
+                return "Err:MissingWitnessScript"
+            return ("digest", "p2wsh_signature_hash", idx, wscript, amt, ty)
+        if spk.kind == "p2sh":
+            if redeem is None:
+                return "Err:MissingRedeemScript"
+            return ("digest", "legacy_signature_hash", idx, redeem, ("u32", ty))
+        return ("digest", "legacy_signature_hash", idx, spk, ("u32", ty))
+
+    def norm(v):
+        if isinstance(v, tuple) and v and v[0] == "digest":
+            out = []
+            for x in v:
+                if isinstance(x, Adt) and x.path.endswith("Prevouts"):
+                    inner = x.fields.get("0")
+                    n_prev = len(deref(inner).items) if hasattr(deref(inner), "items") else -1
+                    out.append("all-prevouts" if x.variant == "All" and n_prev == 2 else "prevouts:%s/%d" % (x.variant, n_prev))
+                else:
+                    out.append(x)
+            return tuple(out)
+        return v
+    n = 0
+    bad = {}
+    for (sname, spk), (rn, redeem), (wn, wscript), (ln, leaf), (tn, st), pos in itertools.product(
+            spks, redeems, wscripts, leafs, SIGTYPES, (0, 1)):
+        if sname not in ("p2sh",) and rn not in ("-", "ms"):
+            continue
+        mine = mk_input("mine")
+        mine.fields["witness_utxo"] = some(Adt("bitcoin::TxOut", "TxOut", {"script_pubkey": spk, "value": Term("amount", "mine")}))
+        mine.fields["non_witness_utxo"] = NONE
+        mine.fields["redeem_script"] = some(redeem) if redeem is not None else NONE
+        mine.fields["witness_script"] = some(wscript) if wscript is not None else NONE
+        mine.fields["sighash_type"] = some(st) if st is not None else NONE
+        other = mk_input("other")
+        other.fields["witness_utxo"] = some(OTHER)
+        other.fields["non_witness_utxo"] = NONE
+        other.fields["redeem_script"] = some(PyScript("ms", Term("other-redeem")))
+        other.fields["witness_script"] = some(PyScript("ms", Term("other-witness")))
+        other.fields["sighash_type"] = some(("pst", ok(tap_ty("None")), ok(ecdsa_ty("None"))))
+        inputs = [mine, other] if pos == 0 else [other, mine]
+        ps = mk_psbt(2, 0, [0, 0], inputs)
+        key = "%s|redeem=%s|witness=%s|%s|sighash=%s" % (sname, rn, wn, ln, tn)
+        n += 1
+        try:
+            r = m.call_path(sm, [ps, pos, Term("cache"), leaf])
+        except Unsupported as e:
+            chk.fail(R, "unanalysable:" + sname, "unanalysable: %s" % e, where=e.where, kind="unanalysable")
+            return
+        except Panic as e:
+            bad.setdefault(sname, []).append("%s (input %d): panic %s" % (key, pos, e))
+            continue
+        want = expected(spk, redeem, wscript, leaf, st, pos)
+        if r.variant == "Ok":
+            got = norm(r.fields["0"].fields["0"])
+            kind = r.fields["0"].variant
+            want_kind = {"taproot": "TapSighash", "p2w": "SegwitV0Sighash", "legacy": "LegacySighash"}[
+                "taproot" if isinstance(want, tuple) and want[1].startswith("taproot") else
+                "p2w" if isinstance(want, tuple) and want[1].startswith("p2w") else "legacy"]
+            if repr(got) != repr(want) or kind != want_kind:
+                bad.setdefault(sname, []).append("%s (input %d): asks for %s %r, the signer's digest is %s %r"
+                                                 % (key, pos, kind, got, want_kind, want))
+        else:
+            e = r.fields["0"]
+            got = "Err:" + (e.variant if isinstance(e, Adt) else repr(e))
+            if got != want:
+                bad.setdefault(sname, []).append("%s (input %d): %s, the signer's digest is %r" % (key, pos, got, want))
+    for sname, _ in spks:
+        if sname in bad:
+            chk.fail(R, sname, "%d case(s); first: %s" % (len(bad[sname]), bad[sname][0]), where="src/psbt/mod.rs",
+                     detail=bad[sname][:10])
+        else:
+            chk.ok(R)
+    # error cases that do not depend on the output type
+    base = mk_input("mine")
+    base.fields["witness_utxo"] = some(OTHER)
+    base.fields["non_witness_utxo"] = NONE
+    base.fields["sighash_type"] = NONE
+    missing = mk_input("missing")
+    missing.fields["witness_utxo"] = NONE
+    missing.fields["non_witness_utxo"] = NONE
+    for key, inputs, idx, want in (("index-out-of-range", [base], 1, "IndexOutOfBounds"), ("index-far", [base, base], 7, "IndexOutOfBounds"),
+                                   ("no-inputs", [], 0, "IndexOutOfBounds"),
+                                   ("other-input-without-utxo", [base, missing], 0, "MissingSpendUtxos"),
+                                   ("own-input-without-utxo", [missing, base], 0, "MissingSpendUtxos")):
+        ps = mk_psbt(2, 0, [0] * len(inputs), inputs)
+        n += 1
+        try:
+            r = m.call_path(sm, [ps, idx, Term("cache"), NONE])
+            e = r.fields["0"]
+            chk.obligation(R, r.variant == "Err" and isinstance(e, Adt) and e.variant == want, key,
+                           "sighash_msg gives %r, expected the error %s" % (r, want), where="src/psbt/mod.rs")
+        except Panic as e:
+            chk.fail(R, key, "sighash_msg panics: %s" % e, where="src/psbt/mod.rs")
+        except Unsupported as e:
+            chk.fail(R, "unanalysable:" + key, "unanalysable: %s" % e, where=e.where, kind="unanalysable")
+    chk.extra["R14.8_cases"] = n
+    chk.floor(R, "cases", n, 300)
+
+
 def run(chk):
     F = chk.facts()
     chk.explanation = __doc__
@@ -756,3 +937,5 @@ def run(chk):
         chk.guard("R14.7", "updater", check_updater, chk, F)
     if not ONLY or "6" in ONLY:
         chk.guard("R14.6", "get_descriptor", check_get_descriptor, chk, F)
+    if not ONLY or "8" in ONLY:
+        chk.guard("R14.8", "sighash_msg", check_sighash_msg, chk, F)
